@@ -7,6 +7,7 @@ import (
 	"math/big"
 	"net/http"
 	"net/textproto"
+	"net"
 	"net/url"
 	"sort"
 	"strconv"
@@ -1638,6 +1639,59 @@ func init() {
 			}
 			return tuple{ex.urlFromGo(u, pt.Elem()), iface{}}
 		}
+	}
+	// net.ResolveTCPAddr on a concrete "IP-literal:port" (no name resolution involved) is
+	// evaluated by the host's net package; anything else stays unsupported
+	m["net.ResolveTCPAddr"] = func(ex *Exec, c *frame, fn *ssa.Function, a []value) value {
+		nw, ok1 := a[0].(*Term)
+		ad, ok2 := a[1].(*Term)
+		pt := fn.Signature.Results().At(0).Type().(*types.Pointer)
+		if !ok1 || !ok2 || !nw.IsConst() || !ad.IsConst() {
+			panic(unsupported{"net.ResolveTCPAddr on a symbolic address"})
+		}
+		host, _, err := net.SplitHostPort(ad.s)
+		if err == nil {
+			h := host
+			if i := strings.LastIndexByte(h, '%'); i >= 0 {
+				h = h[:i]
+			}
+			if h != "" && net.ParseIP(h) == nil {
+				panic(unsupported{"name resolution is not modelled: net.ResolveTCPAddr(" + ad.s + ")"})
+			}
+		}
+		r, err := net.ResolveTCPAddr(nw.s, ad.s)
+		if err != nil {
+			return tuple{(*value)(nil), ex.newErrorValue(err.Error())}
+		}
+		st := pt.Elem().Underlying().(*types.Struct)
+		sv := ex.zero(pt.Elem()).(structure)
+		if r.IP != nil {
+			ip := make([]value, len(r.IP))
+			for i, b := range r.IP {
+				ip[i] = ex.tc.BVConst(8, uint64(b))
+			}
+			sv[ex.fieldIndex(st, "IP")] = ip
+		}
+		sv[ex.fieldIndex(st, "Port")] = ex.tc.Int64(int64(r.Port))
+		sv[ex.fieldIndex(st, "Zone")] = ex.tc.StrConst(r.Zone)
+		cell := new(value)
+		*cell = sv
+		return tuple{cell, iface{}}
+	}
+	m["(net.IP).String"] = func(ex *Exec, c *frame, fn *ssa.Function, a []value) value {
+		sl, _ := a[0].([]value)
+		bs := make([]byte, len(sl))
+		for i, e := range sl {
+			t, ok := e.(*Term)
+			if !ok || !t.IsConst() {
+				panic(unsupported{"net.IP.String on symbolic bytes"})
+			}
+			bs[i] = byte(t.u)
+		}
+		if a[0] == nil || sl == nil {
+			return ex.tc.StrConst(net.IP(nil).String())
+		}
+		return ex.tc.StrConst(net.IP(bs).String())
 	}
 	m["net/url.Parse"] = parse(url.Parse)
 	m["net/url.ParseRequestURI"] = parse(url.ParseRequestURI)
